@@ -4,6 +4,8 @@
 mod bind;
 mod harness;
 mod world;
+#[cfg(any(feature = "c16", feature = "c17"))]
+mod lvl;
 #[cfg(any(feature = "c03", feature = "c10", feature = "c11", feature = "c13", feature = "c14", feature = "c15", feature = "c16", feature = "c17", feature = "c18"))]
 mod schema;
 #[cfg(any(feature = "c05", feature = "c06"))]
